@@ -216,18 +216,23 @@ def verify(unit, seed=None, rlimit=None, canary=True, keep=True):
             return out
         cpath = os.path.join(WORK, unit, '%s_canary.rs' % unit)
         open(cpath, 'w').write(cgen)
-        cres = verus.run(cpath, seed=seed, rlimit=rlimit, extra=['--multiple-errors', '1'])
+        cres = verus.run(cpath, seed=seed, rlimit=3, extra=['--multiple-errors', '1'])
         cfails = name_failures(unit, cinfo, cres, cgen)
-        rejected = set()
         tool = [f for f in cfails if f['cls'] == 'tool']
-        for f in cfails:
-            if f.get('fn'):
-                rejected.add(f['fn'])
-            if f.get('lemma'):
-                rejected.add('lemma:' + f['lemma'])
-        expected = [ex['id'] for ex in cinfo['extracts'] if ex['kind'] == 'fn' and not ex.get('external_body')]
-        expected += ['lemma:' + lm['name'] for lm in cinfo['lemmas'] if lm['has_ensures']]
-        accepted = [x for x in expected if x not in rejected]
+        err_lines = []
+        for d in cres['diags']:
+            if verus.classify(d) in ('definite', 'undecided'):
+                err_lines += [sp['line'] for sp in verus.spans(d)]
+        expected, accepted = [], []
+        for tw in cinfo['twins']:
+            expected.append(tw['id'])
+            if not any(tw['gen_start'] <= l <= tw['gen_end'] for l in err_lines):
+                accepted.append(tw['id'])
+        for lm in cinfo['lemmas']:
+            if lm['name'].endswith('__canary'):
+                expected.append('lemma:' + lm['name'][:-8])
+                if not any(lm['gen_start'] <= l <= lm['gen_end'] for l in err_lines):
+                    accepted.append('lemma:' + lm['name'][:-8])
         out['canary'] = dict(expected=len(expected), rejected=len(expected) - len(accepted), accepted=accepted,
                              wall_s=cres['wall_s'], tool_errors=[f['message'] for f in tool][:5])
         if tool:
